@@ -73,6 +73,21 @@ class CrashPlan(Monitor):
                 return True
         return False
 
+    def after_restart(self, sim, mode):
+        # the restarted engine's loops start in any order: in half of the crash runs the sync loop (or one event loop) gets a
+        # few turns of its own before the others take anything in
+        if mode != "crash":
+            return
+        r = random.Random("%s:%s:post" % (self.kind, self.k))
+        x = r.random()
+        if x < 0.4:
+            for _ in range(r.randrange(2, 6)):
+                sim.step("S")
+        elif x < 0.55:
+            which = r.choice(("E0", "E1"))
+            for _ in range(r.randrange(1, 4)):
+                sim.step(which)
+
     def at_crash(self, sim):
         self.crashed = True
         site = sim.world.crash_site
